@@ -19,7 +19,7 @@ pub fn gen_items(rng: &mut Rng, max_items: usize, chunk: usize, max_payload: usi
         _ => rng.usize(1, max_items),
     };
     let mut ts: u32 = rng.u32_boundary();
-    let mut items = Vec::with_capacity(n);
+    let mut items: Vec<Item> = Vec::with_capacity(n);
     for _ in 0..n {
         let step = match rng.below(11) {
             0 => 0,
@@ -32,6 +32,12 @@ pub fn gen_items(rng: &mut Rng, max_items: usize, chunk: usize, max_payload: usi
             4 => rng.u32(),
             _ => rng.below(100) as u32,
         };
+        // an exact repeat of the previous item (same kind, bytes and timestamp) is a separate item
+        if !items.is_empty() && rng.chance(1, 7) {
+            let prev: Item = items.last().unwrap().clone();
+            items.push(prev);
+            continue;
+        }
         ts = ts.wrapping_add(step);
         if rng.chance(1, 8) {
             items.push(Item::Meta(sessdrv::default_metadata(rng)));
@@ -52,7 +58,9 @@ pub fn gen_items(rng: &mut Rng, max_items: usize, chunk: usize, max_payload: usi
         let mut data = vec![0u8; len];
         rng.fill(&mut data);
         let drop = rng.chance(1, 4);
-        if rng.coin() {
+        let audio = rng.coin();
+        rng.flv_prefix(if audio { 8 } else { 9 }, &mut data);
+        if audio {
             items.push(Item::Audio { data, ts, drop });
         } else {
             items.push(Item::Video { data, ts, drop });
